@@ -116,6 +116,51 @@ def _check_read(case):
     return 1, "ok", (len(ivs), offgrid, kind, repl, tuple((a == 0, b == N) for a, b in ivs)), viols
 
 
+def _check_reuse(case):
+    """Two consecutive reads through ONE open reader: the second must return what a fresh reader returns."""
+    width, rate, first, second, via = case
+    fn = _wavfile(width, rate)
+    s = list(SAMPLES)
+
+    def spec(x):
+        kind, ivs, repl = x
+        L = [(a / rate, b / rate) for a, b in ivs]
+        gen = audio.AudioGenerator(width, rate)
+        rf = gen.generateSilence if repl else None
+        return dict(keepIntervals=L if kind == "keep" else None, deleteIntervals=L if kind == "delete" else None, replaceFunc=rf)
+    viols = []
+    if via == "reader":
+        af = wave.open(fn, "r")
+        try:
+            call(audio.readFramesAtTimes, af, **spec(first))
+            st, got, _ = call(audio.readFramesAtTimes, af, **spec(second))
+        finally:
+            af.close()
+        af2 = wave.open(fn, "r")
+        try:
+            st2, exp, _ = call(audio.readFramesAtTimes, af2, **spec(second))
+        finally:
+            af2.close()
+        what = f"readFramesAtTimes({second}) after readFramesAtTimes({first}) on the same wave reader"
+    else:
+        q = audio.QueryWav(fn)
+        (a, b), (c, d) = first[1][0], second[1][0]
+        call(q.getFrames, a / rate, b / rate)
+        st, got, _ = call(q.getFrames, c / rate, d / rate)
+        q.audiofile.close()
+        q2 = audio.QueryWav(fn)
+        st2, exp, _ = call(q2.getFrames, c / rate, d / rate)
+        q2.audiofile.close()
+        what = f"QueryWav.getFrames(samples {c}..{d}) after getFrames(samples {a}..{b}) on the same QueryWav"
+        if st2 == "ok" and W.unpack(exp, width) != s[c:d]:
+            viols.append(Viol("reuse-fresh-wrong", f"{what}: even a fresh QueryWav returns {W.unpack(exp, width)}"))
+    if st != st2 or (st == "ok" and got != exp):
+        viols.append(Viol("reader-position-leaks", f"{what} (width={width} rate={rate}) returns "
+                                                   f"{W.unpack(got, width) if st == 'ok' else got!r}; a fresh reader returns "
+                                                   f"{W.unpack(exp, width) if st2 == 'ok' else exp!r}"))
+    return 3, "ok", (first[0], second[0], via, second[1][0][0] == 0 if second[1] else None), viols
+
+
 def _check_rejects(case):
     width, rate, which = case
     fn = _wavfile(width, rate)
@@ -307,7 +352,23 @@ def parts(tier):
                                         continue
                                     yield (width, rate, ivs, oi, pi, flag, npi, ns)
 
+    def gen_reuse():
+        small = [x for x in sets if x and len(x) <= 2]
+        for width, rate in ((2, 8), (1, 8000)):
+            for fi in small[:: 3 if quick else 1]:
+                for se in small:
+                    for k1, k2 in (("keep", "keep"), ("keep", "delete"), ("delete", "keep")):
+                        yield (width, rate, (k1, fi, False), (k2, se, k2 == "delete"), "reader")
+            for fi in small:
+                if len(fi) == 1:
+                    for se in small:
+                        if len(se) == 1:
+                            yield (width, rate, ("keep", fi, False), ("keep", se, False), "querywav")
+
     return [
+        InputPart("reader-reuse", gen_reuse, _check_reuse,
+                  rule="all ordered pairs of interval lists read one after the other through ONE open wave reader / QueryWav: the second "
+                       "result must equal what a fresh reader returns (position state must not leak between calls)", bounds={}),
         InputPart("readFramesAtTimes", gen_read, _check_read,
                   rule="12-sample recordings x %d (width, rate) pairs x all lists of <=3 disjoint intervals on sample positions %s "
                        "(on the grid and moved off it by 1/3 sample) x keep/delete x {no replacement, silence, sine}; on-grid: exact "
